@@ -3,8 +3,8 @@
    reader of every layer) instantiated with the Flocq scalar operations; it is tied to the code by
    the byte-exact correspondence check (props/c06.py). *)
 From Coq Require Import ZArith List Bool.
-From Covfie Require Import Stack BinIO BinIOProofs FloatOps Refine_Tags.
-From Covfie.gen Require Import Gen_Tags.
+From Covfie Require Import Stack BinIO BinIOProofs FloatOps Refine_Tags Refine_ArrayIO.
+From Covfie.gen Require Import Gen_Tags Gen_ArrayIO.
 Import ListNotations.
 Local Open Scope Z_scope.
 
@@ -48,6 +48,15 @@ Proof. exact read_order_is_write_order. Qed.
 Theorem C06_field_order_is_the_source : forall s f bs, dump s f = Some bs ->
   exists b, dump_layers (fst s) (snd s) (f_cfgs f) (f_prim f) = Some b /\ bs = flat_map (field_item_bytes b) field_write_seq.
 Proof. exact dump_order_is_the_source. Qed.
+
+(* the array primitive: its reader and writer have the model's scheme (header, width word by stored type, element count,
+   every element component by component -- read at the FILE's width and converted --, footer), and the model dump of an array
+   is the writer's pieces in the writer's order *)
+Theorem C06_array_io_scheme_is_the_source : arrayio_write = model_array_write /\ arrayio_read = model_array_read /\ arrayio_problems = O.
+Proof. exact array_io_scheme_is_the_models. Qed.
+Theorem C06_array_write_order_is_the_source : forall m t len data bs w, float_width t = Some w ->
+  dump_prim (PArray m t) (DArray len data) = Some bs -> bs = flat_map (array_item_bytes t w len data) arrayio_write.
+Proof. exact array_write_order_is_the_source. Qed.
 
 (* non-vacuity: a five-layer stack with every kind of configuration *)
 Example C06_example :
